@@ -23,6 +23,52 @@ type c05Obs struct {
 	Err     string    `json:"err,omitempty"`
 	TokOK   bool      `json:"tok_ok"` // the token stream is exactly StartTag(div) EndTag(div)
 	TokAttr []c05Attr `json:"tok_attrs"`
+	// every render of the case on the one engine of this process (the first is the one above), and for each
+	// render the attribute list of every <div> of its output (a case may use its tag several times per render)
+	Renders []c05Render `json:"renders"`
+}
+
+type c05Render struct {
+	Class string      `json:"class"`
+	Out   string      `json:"out"`    // hex
+	TokOK bool        `json:"tok_ok"` // the token stream is exactly `uses` times StartTag(div) EndTag(div)
+	Toks  [][]c05Attr `json:"toks"`
+}
+
+// a C05 case: a T case whose page holds the tag under test `uses` times (default 1)
+type c05Case struct {
+	tCase
+	Uses int `json:"uses"`
+}
+
+// tokenizeDivs reads `uses` times <div ATTRS></div> and nothing else
+func tokenizeDivs(out string, uses int) (ok bool, all [][]c05Attr) {
+	all = [][]c05Attr{}
+	z := html.NewTokenizer(strings.NewReader(out))
+	open := false
+	for {
+		tt := z.Next()
+		if tt == html.ErrorToken {
+			return !open && len(all) == uses, all
+		}
+		tok := z.Token()
+		switch {
+		case !open && tt == html.StartTagToken && tok.Data == "div":
+			attrs := []c05Attr{}
+			for _, a := range tok.Attr {
+				if a.Namespace != "" {
+					return false, all
+				}
+				attrs = append(attrs, c05Attr{Name: hex.EncodeToString([]byte(a.Key)), Val: hex.EncodeToString([]byte(a.Val))})
+			}
+			all = append(all, attrs)
+			open = true
+		case open && tt == html.EndTagToken && tok.Data == "div":
+			open = false
+		default:
+			return false, all
+		}
+	}
 }
 
 func tokenizeDiv(out string) (ok bool, attrs []c05Attr) {
@@ -54,21 +100,33 @@ func tokenizeDiv(out string) (ok bool, attrs []c05Attr) {
 
 func init() {
 	runners["C05"] = func(in json.RawMessage) (interface{}, error) {
-		var cases []tCase
+		var cases []c05Case
 		if err := json.Unmarshal(in, &cases); err != nil {
 			return nil, err
 		}
 		res := make([]c05Obs, len(cases))
 		for i, c := range cases {
-			o, err := runTCase(c)
+			if c.Uses < 1 {
+				c.Uses = 1
+			}
+			o, err := runTCase(c.tCase)
 			if err != nil {
 				return nil, fmt.Errorf("case %d: %w", i, err)
 			}
-			ob := c05Obs{Load: o.Load, Class: o.Res.Class, Out: o.Res.Out, Err: o.Res.Err, TokAttr: []c05Attr{}}
+			ob := c05Obs{Load: o.Load, Class: o.Res.Class, Out: o.Res.Out, Err: o.Res.Err, TokAttr: []c05Attr{}, Renders: []c05Render{}}
 			if o.Load != clsOK {
 				ob.Err = o.LoadMsg
 			} else if o.Res.Class == clsOK {
 				ob.TokOK, ob.TokAttr = tokenizeDiv(unhx(o.Res.Out))
+			}
+			if o.Load == clsOK {
+				for _, r := range append([]renderResult{o.Res}, o.More...) {
+					rr := c05Render{Class: r.Class, Out: r.Out, Toks: [][]c05Attr{}}
+					if r.Class == clsOK {
+						rr.TokOK, rr.Toks = tokenizeDivs(unhx(r.Out), c.Uses)
+					}
+					ob.Renders = append(ob.Renders, rr)
+				}
 			}
 			res[i] = ob
 		}
